@@ -19,7 +19,7 @@ FaultVerdict(ev) ==
     IF ev.kind = "timeout" /\ DeclaredHuge(case.fmt, case.head) THEN {}       \* time proportional to the DECLARED size is allowed
     ELSE {V(IF ev.kind = "timeout" THEN "P_Terminates" ELSE "P_ReturnsOrThrows",
             \* an unmodified valid file has no excuse (except the hand-written file whose very content is the over-long token)
-            IF case.mut = "original" /\ LongestDigitRun(case.head, 0, 0, 0) <= 15 THEN "None" ELSE Cause(case.fmt, case.head, open.api), Key,
+            IF case.mut = "original" /\ LongestDigitRun(case.head, 0, 0, 0) <= 15 THEN "None" ELSE Cause(case.fmt, case.head, open.api, case.len), Key,
             [kind |-> ev.kind, base |-> case.base, mut |-> case.mut, len |-> case.len])}
 
 Verdict(ev) ==
